@@ -477,7 +477,7 @@ Proof.
         { exists 1, (GFinal OStopped). split; [lia|]. split; [|constructor].
           apply steps_one; [reflexivity|]. cbn. now rewrite N1, N2, N3, Ex. }
       * (* command is the trailing end/return folded into the terminator *)
-        inversion Hx; subst e. unfold is_endret in He.
+        inversion Hx; subst e. unfold is_endret in He. destruct (cargs c0) as [|? ?]; [|discriminate He].
         destruct (text_eqb (cname c0) (t "end")) eqn:N1.
         { unfold is_name in Hst. rewrite N1 in Hst. inversion Hst; subst ev A' s'.
           assert (Hce : cend c = true) by congruence.
